@@ -37,28 +37,26 @@ func genCKKSSet(t *rapid.T, req modReq, tolBits int) CKKSSet {
 	n := s.P.N()
 	s.P.Xs = h.GenDist(t, true, n, "xs")
 	s.P.Xe = h.GenDist(t, false, n, "xe")
-	be, sl1 := s.P.Xe.AbsBound(), h.SecretL1(s.P.Xs, n)
-	// worst-case key-switch noise over every set genModuli can draw with P != {} (3 Q primes, 1 P prime) or with the
-	// power-of-two basis (3 primes, base 2^8)
-	ksP := math.Log2(3*float64(n)*3*be + 2*(1+sl1))
-	ks0 := math.Log2(3*8*float64(n)*256*be + 0)
-	ks := ksP
-	if !req.needP {
-		ks = math.Max(ksP, ks0)
+	if req.termsN {
+		req.terms, req.depth = n, s.P.LogN+3
 	}
-	tot := totalNoiseLog2(req.terms, req.depth, ks, be)
-	// slot error <= N * coefficient error / scale
-	needScale := int(math.Ceil(tot + float64(s.P.LogN) + float64(tolBits)))
+	// The scale must leave room for `terms` summed messages below a 60-bit q0 and make the worst-case slot error
+	// N * coefficient error / scale smaller than 2^-tolBits: this bounds the admissible noise, and genKS adjusts the
+	// drawn shape (basis, auxiliary prime) to it.
+	maxScale := 59 - 3 - int(math.Ceil(math.Log2(float64(req.terms))))
+	maxTot := math.Min(49, float64(maxScale-tolBits-s.P.LogN))
+	c := genKS(t, s.P.LogN, s.P.Xs, s.P.Xe, req, maxTot)
+	needScale := int(math.Ceil(c.tot + float64(s.P.LogN) + float64(tolBits)))
 	if needScale < 20 {
 		needScale = 20
 	}
-	maxScale := 59 - 3 - int(math.Ceil(math.Log2(float64(req.terms))))
 	if needScale > maxScale {
-		needScale = maxScale // cannot happen for the budgets used here; run() re-checks the margin
+		needScale = maxScale // not reachable after genKS; run() re-checks the margin and skips the case otherwise
 	}
 	s.P.LogScale = rapid.IntRange(needScale, maxScale).Draw(t, "logScale")
-	req.msgLog2 = float64(s.P.LogScale) + math.Log2(float64(req.terms)) + 1
-	s.P.Q, s.P.P, s.Bpw2 = genModuli(t, s.P.LogN, s.P.NthRoot(), s.P.Xs, s.P.Xe, req, map[uint64]bool{})
+	need := math.Max(c.tot+1+9, float64(s.P.LogScale)+math.Log2(float64(req.terms))+1+2)
+	s.P.Q, s.P.P = genPrimes(t, s.P.NthRoot(), c, need, map[uint64]bool{})
+	s.Bpw2 = c.bpw2
 	return s
 }
 
@@ -257,7 +255,10 @@ func runCKKSRot(c CKKSRotCase, rec *h.Rec) error {
 	maxSlots := p.MaxSlots()
 	tol, ok := ctx.tol(c.Level, 1, 4)
 	if !ok || tol > math.Exp2(-10) {
-		return h.Failf("C11:harness:margin", "tolerance %g / modulus room insufficient (generator bug)", tol)
+		// cannot be judged (error bound too large for the scale / modulus): counted as trivial, never a violation
+		rec.Class("unjudged:noise-margin")
+		rec.Note("tolerance", tol)
+		return nil
 	}
 	vals := distinctC(c.Seed, slots, c.Set.P.CI)
 	ct, err := ctx.encrypt(vals, c.Level, c.LogSlots)
@@ -479,7 +480,7 @@ var ckksSumOps = []string{"InnerSum", "InnerSum", "RotateAndAdd", "RotateAndAdd"
 func genCKKSSum(t *rapid.T) CKKSSumCase {
 	var c CKKSSumCase
 	op := ckksSumOps[rapid.IntRange(0, len(ckksSumOps)-1).Draw(t, "op")]
-	c.Set = genCKKSSet(t, modReq{needP: op != "InnerFunction", terms: 1 << maxLogN(), depth: maxLogN() + 3}, 8)
+	c.Set = genCKKSSet(t, modReq{needP: op != "InnerFunction", termsN: true}, 8)
 	c.Level = rapid.IntRange(0, len(c.Set.P.Q)-1).Draw(t, "level")
 	c.LogSlots = genLogSlots(t, bitsLen(c.Set.maxSlots()), c.Set.P.CI)
 	c.Seed = rapid.Uint64().Draw(t, "seed")
@@ -517,7 +518,10 @@ func runCKKSSum(c CKKSSumCase, rec *h.Rec) error {
 	a := c.Args
 	tol, ok := ctx.tol(c.Level, a.terms(), a.depth())
 	if !ok || tol > math.Exp2(-6) {
-		return h.Failf("C11:harness:margin", "tolerance %g / modulus room insufficient (generator bug)", tol)
+		// cannot be judged (error bound too large for the scale / modulus): counted as trivial, never a violation
+		rec.Class("unjudged:noise-margin")
+		rec.Note("tolerance", tol)
+		return nil
 	}
 	rng := h.NewSplitMix(c.Seed)
 	vals := make([]complex128, slots)
